@@ -68,8 +68,8 @@ CHECKS = {
         technique="Rocq proof (decode <-> injective; five-phase solver model proved sound and complete) + prefix-wise rank-oracle and exact op-list correspondence",
         ref="DESIGN.md section 5, C02"),
     "C01": dict(
-        text="C01u_object_sound / C01u_block_sound (unconditional, both modes, every K <= 56403): for every valid configuration, all data and EVERY history of packets the model encoder produces (any order, multiplicity, subset, repair ESIs < 2^24) the model decoder never panics and answers None or exactly the object with length F; C01u_object_complete / C01u_all_source_complete: all source packets delivered => the object. Chain: the encoder's intermediate symbols solve the encoding system (reference elimination, proved correct), G_ENC rows are indicator rows of duplicate-free index lists so every received row is satisfied by the true C, uniqueness of the solution of an injective system forces the decoder's C, rebuilt symbols are Enc(C) = source symbols, un-interleaving by C05. Matrix facts discharged from the C04 development. Tie: whole encode -> erase/reorder/duplicate -> decode histories on the real code vs the model step by step (Z>1, N>1, padding, both profiles, dense/sparse thresholds) with the oracle 'None or exactly the object'.",
-        note="Trusted: Coq kernel; the real plan replay producing the model's intermediate symbols is certified per K' in C06 (in-kernel up to the stated bound) and tied by correspondence beyond; the real five-phase solver vs the reference elimination is tied by correspondence (C02). repair_packets with a start index beyond the 24-bit ESI space wraps in release builds (outside the property's quantifier; see DESIGN.md findings). No axioms.",
+        text="C01u_object_sound / C01u_block_sound (unconditional, both modes, every K <= 56403): for every valid configuration, all data and EVERY history of packets the model encoder produces (any order, multiplicity, subset, repair ESIs < 2^24) the model decoder never panics and answers None or exactly the object with length F; C01u_object_complete / C01u_all_source_complete: all source packets delivered => the object. Chain: the encoder's intermediate symbols solve the encoding system (reference elimination, proved correct), G_ENC rows are indicator rows of duplicate-free index lists so every received row is satisfied by the true C, uniqueness of the solution of an injective system forces the decoder's C, rebuilt symbols are Enc(C) = source symbols, un-interleaving by C05. Matrix facts discharged from the C04 development. Props/C01s.v closes the loop to the solver: the encoder and decoder models that run the five-phase solver model (Model/PiSolver.v, whose op lists equal the real solver's token by token) plus the op replay are EQUAL to the ones with the reference elimination on every consistent system (C01s_solver_equals_reference, C01s_block_decoder_equal, C01s_object_decoder_equal), so soundness and completeness hold for them too (C01s_object_sound_pi / _complete_pi). Tie: whole encode -> erase/reorder/duplicate -> decode histories on the real code vs the model step by step (Z>1, N>1, padding, both profiles, dense/sparse thresholds) with the oracle 'None or exactly the object'.",
+        note="Trusted: Coq kernel; the real plan replay producing the model's intermediate symbols is certified per K' in C06 (in-kernel up to the stated bound) and tied by correspondence beyond; the real five-phase solver is tied to its model op list by op list on the dense back-end and by results on the sparse back-end (C02). repair_packets with a start index beyond the 24-bit ESI space used to wrap in release builds (repaired, fix 7bdcd6d). No axioms.",
         technique="Rocq proof (encode/decode soundness via uniqueness of the solution) + history correspondence",
         ref="DESIGN.md section 5, C01"),
     "C04": dict(
@@ -89,7 +89,7 @@ CHECKS = {
         ref="DESIGN.md section 5, C16"),
     "C18": dict(
         text="C18_window_is_singles (both modes, unconditional), C18_singles_make_window, C18_overlap_agree, C18_ids / C18_ids_mod (ESI = K+s+i, distinct, disjoint from source ids), C18_object_order (block by block: source 0..K-1 then repair K..), C18_all_ids_producible (every id below 2^24 is produced without panic, via the C15 tuple facts), C18_symbol_depends_only_on (payload is a function of K, the intermediate symbols and the ESI), C18_enc_into_is_enc_indices. Tie: on the real encoder windows vs singles vs overlapping windows, ids, object order, the three constructors (cache / explicit plan / regenerated plan) produce equal encoders, top-of-range windows and the 2^24 limit, all also vs the model in both profiles.",
-        note="Trusted: Coq kernel; determinism of plan generation on the real code is a correspondence fact. Windows reaching beyond the 24-bit ESI space are outside the property (in release builds a start index near 2^32 wraps: see DESIGN.md findings). No axioms.",
+        note="Trusted: Coq kernel; determinism of plan generation on the real code is a correspondence fact. Windows reaching beyond the 24-bit ESI space are refused (assert added by fix 7bdcd6d; before it a start index near 2^32 wrapped in release builds). No axioms.",
         technique="Rocq proof over the encoder model + window/constructor correspondence",
         ref="DESIGN.md section 5, C18"),
     "C07": dict(
